@@ -368,14 +368,16 @@ impl Interp<'_> {
         match n {
             RNode::Seq { items, .. } => {
                 let mut c = Comb::default();
-                if items.len() > ts.len() {
-                    c.fail(match self.tail_ctx {
-                        Some("tagged-variant") => "tuple-surplus-inside-tagged-variant",
-                        Some(_) => "tuple-surplus-inside-map-key",
-                        None => "tuple-surplus",
+                if items.len() != ts.len() {
+                    // Inside a sub-document that the crate deserializes from a recorded buffer, every
+                    // arity mismatch gets one class of its own (surplus and missing elements can
+                    // compensate each other there).
+                    c.fail(match (self.tail_ctx, items.len() > ts.len()) {
+                        (Some("tagged-variant"), _) => "tuple-arity-inside-tagged-variant",
+                        (Some(_), _) => "tuple-arity-inside-map-key",
+                        (None, true) => "tuple-surplus",
+                        (None, false) => "tuple-short",
                     });
-                } else if items.len() < ts.len() {
-                    c.fail("tuple-short");
                 }
                 for (t, it) in ts.iter().zip(items) {
                     c.push(self.go(t, it, false));
